@@ -168,9 +168,6 @@ def _leaky_relu_jvp_rule(
     primals: tuple[ArrayLike, ...], tangents: tuple[ArrayLike, ...], **params: object
 ) -> tuple[ArrayLike, ArrayLike]:
     slope_param = params.get("negative_slope", 0.01)
-    negative_slope = (
-        float(slope_param) if isinstance(slope_param, (int, float)) else 0.01
-    )
 
     (x,) = primals
     (x_dot,) = tangents
@@ -178,7 +175,8 @@ def _leaky_relu_jvp_rule(
 
     zero = jnp.asarray(0.0, dtype=x.dtype)
     one = jnp.asarray(1.0, dtype=x.dtype)
-    slope = jnp.asarray(negative_slope, dtype=x.dtype)
+    # Python number, NumPy scalar or 0-d array alike (not only int/float).
+    slope = jnp.reshape(jnp.asarray(slope_param, dtype=x.dtype), ())
 
     neg_branch = jax.lax.mul(slope, x)
     primal_out = jax.lax.select(jax.lax.gt(x, zero), x, neg_branch)
